@@ -367,7 +367,9 @@ class ClientWorldObjectManager:
         if old_region_handle != new_region_handle:
             # The object just changed regions, we have to remove it from the old one.
             # Our LocalID will most likely change because, well, our locale changed.
-            old_region_state.untrack_object(obj)
+            # There's no old region state if it was moved to an unknown region before.
+            if old_region_state is not None:
+                old_region_state.untrack_object(obj)
         elif old_local_id != new_local_id:
             # Our LocalID changed, and we deal with linkages to other prims by
             # LocalID association. Break any links since our LocalID is changing.
@@ -377,9 +379,11 @@ class ClientWorldObjectManager:
             new_localid = new_properties["LocalID"]
             LOG.warning(f"Got an update with new LocalID for {obj.FullID}, {obj.LocalID} != {new_localid}. "
                         f"May have mishandled a KillObject for a prim that left and re-entered region.")
-            old_region_state.untrack_object(obj)
+            if old_region_state is not None:
+                old_region_state.untrack_object(obj)
             obj.LocalID = new_localid
-            old_region_state.track_object(obj)
+            if old_region_state is not None:
+                old_region_state.track_object(obj)
             actually_updated_props |= {"LocalID"}
 
         actually_updated_props |= obj.update_properties(new_properties)
